@@ -729,7 +729,7 @@ class Fn:
     def __init__(self, file, container, name, ret="r", requires=(), ensures=(), findings=(),
                  loops=None, proofs=(), rewrites=(), sig_rewrites=(), emit_as=None, nth=0,
                  decreases=None, attrs="", props=None, rename=None, no_canary=False,
-                 opens_invariants=None, no_unwind=False, extra_variants=(), stub=False):
+                 opens_invariants=None, no_unwind=False, extra_variants=(), stub=False, also=()):
         self.file, self.container, self.name, self.ret = file, container, name, ret
         self.requires = _clauses(requires)
         self.ensures = _clauses(ensures)
@@ -746,6 +746,7 @@ class Fn:
         self.rename = rename
         self.no_canary = no_canary
         self.no_unwind = no_unwind
+        self.also = list(also)   # properties every clause (and every safety condition) of this function serves in addition
         self.stub = stub   # emit signature + contract only (external_body): an ASSUMED contract here,
                            # to be discharged by the unit that verifies the same function
 
@@ -1044,19 +1045,20 @@ class Unit:
         def _toks(c):
             return [t for t in re.match(r"((?:C\d\d-)*)", c.label).group(1).strip("-").split("-") if t]
         # what the function's own labelled / tagged clauses serve (requires are not counted: they are caller obligations)
-        served = set()
+        also = set(getattr(obj, "also", ()) or ())
+        served = set(also)
         for c in clauses:
             if getattr(c, "kind", "ensures") != "requires":
                 served |= set(c.props or _toks(c))
         for c in clauses:
             if c.props:
-                cprops[c.label] = sorted(c.props)
+                cprops[c.label] = sorted(set(c.props) | also)
             else:
                 # a label that starts with property ids belongs to exactly those properties; an unlabelled clause
                 # (frame, wf, helper definitions) to the properties the function's labelled clauses serve, and only
                 # when there are none to the properties of its function / unit
                 toks = _toks(c)
-                cprops[c.label] = sorted(set(toks)) if toks else sorted(served or set(props))
+                cprops[c.label] = sorted(set(toks) | also) if toks else sorted(served or set(props))
         self.fns[fid] = {"kind": kind, "clauses": {c.label: c for c in clauses}, "props": props,
                          "clause_props": cprops, "lemma": lemma, "obj": obj}
 
